@@ -2,6 +2,7 @@
 package main
 
 import (
+	"go/ast"
 	"fmt"
 	"go/constant"
 	"go/token"
@@ -1340,6 +1341,30 @@ func (g *Gen) runFrame() {
 	fn := fr.fn
 	li := loopsOf(fn)
 	fr.loopK = li.ord
+	if fr.c != nil && fr.c.EveryLoopIterates && g.depth == 0 {
+		// every for/range statement of the source must be a loop of the control-flow graph: a statement
+		// whose body always leaves it (`for ... { return f(x) }`) examines its first element only
+		nAst := 0
+		if syn := fn.Syntax(); syn != nil {
+			ast.Inspect(syn, func(n ast.Node) bool {
+				switch n.(type) {
+				case *ast.FuncLit:
+					return false
+				case *ast.ForStmt, *ast.RangeStmt:
+					nAst++
+				}
+				return true
+			})
+		}
+		save := g.curR
+		g.curR = "true"
+		p := "true"
+		if nAst > len(li.headers) {
+			p = "false"
+		}
+		g.ob("every-loop-iterates", "", p, fmt.Sprintf("the source has %d for/range statements, the control-flow graph %d loops: a loop body that always leaves the loop looks at its first element only", nAst, len(li.headers)))
+		g.curR = save
+	}
 	order := topo(fn, li.back)
 	entryCur := g.cur
 	for _, b := range order {
